@@ -13,7 +13,7 @@ EXPLANATION = ("Guard dominance in ServerHashVerification::verify_server_cert: e
                "nobody calls HandshakeSignatureValid::assertion(); signature checks delegate to rustls with the provider's algorithms. Wiring: "
                "with_server_certificate_hashes installs ServerHashVerification over an empty root store, with_native_certs installs no custom "
                "verifier, build_default_tls_config sets the verifier iff Some; the builder method with_no_cert_validation does not exist in the "
-               "default-feature build; the native root store is loaded while the guard that hides SSL_CERT_FILE / SSL_CERT_DIR is alive (drop ordering on every path).")
+               "default-feature build; the native root store is loaded while the guard that hides SSL_CERT_FILE / SSL_CERT_DIR is alive (drop ordering on every path). C10-R5 also requires that remove_vars_tmp removes each variable on every path (a removal conditioned on how the value reads leaves e.g. a non-UTF-8 SSL_CERT_FILE visible to rustls-native-certs).")
 NOT_DECIDED = ["what rustls-native-certs reads besides the two environment variables", "rustls/webpki chain validation", "x509-parser's parsing", "the clock"]
 TRUSTED = ["rustc MIR", "x509-parser accessors and OID constants", "sha2::Sha256", "rustls dangerous() API semantics"]
 
